@@ -239,6 +239,7 @@ func (d *driver) writeEvidence(t0 time.Time, nviol int, known []string) {
 		"policies":                      d.policies,
 		"verdicts":                      d.verdicts,
 		"process_crashes":               d.crashes,
+		"worker_stalls_retried_ok":      d.stallRetried,
 		"runs_with_leftover_goroutines": d.leftover,
 		"anonymous_goroutine_parks":     d.anon,
 		"known_findings_met":            known,
